@@ -12,6 +12,8 @@ mod c16;
 mod c18;
 mod c19;
 mod c20;
+mod c06;
+mod c17;
 mod capi;
 
 fn main() {
@@ -37,6 +39,8 @@ fn main() {
         "c18" => c18::main(&rest),
         "c19" => c19::main(&rest),
         "c20" => c20::main(&rest),
+        "c06" => c06::main(&rest),
+        "c17" => c17::main(&rest),
         "c18one" => {
             let spec = rest.first().cloned().unwrap_or_default();
             let imp = rest.get(1).cloned().unwrap_or_default();
